@@ -527,6 +527,8 @@ def call_opaque(it, f, args, kwargs, node):
     u = VUnknown("ret(%s)#%d" % (tag, it.opaque_count), "unknown")  # every call of an unknown callable returns its own value
     u.callee = f
     u.call_args = (args, kwargs)
+    if str(tag).endswith(".tell") and not args:
+        u.not_none = True  # the stream protocol: tell() returns the position, an int
     return u
 
 
